@@ -100,4 +100,24 @@ theorem C17_unrecognised_node_error_positioned (env : Env) (tbl : List Entry) (f
   ⟨C03.C03_ambiguity_fails env tbl fuel n T ts ls h hne,
    C17_recognition_failure_positioned env (fuel + 1) n T ts ls h hne⟩
 
+/-- **A repeated key is reported at its mapping.**  When the recognition of an auto-recognised class
+finds an attribute key more than once in a mapping (`get_attribute` raises), the error that ends the
+load cites the position of *that* mapping (next to the node being processed), wherever in the document
+it is; an error that already names a mapping further in is passed on unchanged. -/
+theorem C17_repeated_key_cites_mapping (env : Env) (rec : Node → Ty → RecRes) (d : ClassDef)
+    (tag : String) (ps : Pairs) (m : Mark) (hr : d.recognize = none) (hk : d.kind = .plain)
+    (h : recAttrs rec (.map tag ps m) ps.toList d.params = .error (.seasoning [])) (root : Node) :
+    recUserClass env rec (.map tag ps m) d = .error (.seasoning [m]) ∧
+    fatalToErr root (.seasoning [m]) = .recognition [⟨[root.mark, m], []⟩] := by
+  refine ⟨?_, rfl⟩
+  unfold recUserClass
+  simp only [hr, hk, h, Fatal.atMapping, Node.mark]
+
+theorem C17_repeated_key_inner_kept (env : Env) (rec : Node → Ty → RecRes) (d : ClassDef)
+    (tag : String) (ps : Pairs) (m m' : Mark) (ms : List Mark) (hr : d.recognize = none) (hk : d.kind = .plain)
+    (h : recAttrs rec (.map tag ps m) ps.toList d.params = .error (.seasoning (m' :: ms))) :
+    recUserClass env rec (.map tag ps m) d = .error (.seasoning (m' :: ms)) := by
+  unfold recUserClass
+  simp only [hr, hk, h, Fatal.atMapping]
+
 end YatimlModel.C17
